@@ -765,7 +765,7 @@ func c01h2SeqAlphabet() []c01hCase {
 func TestVerifC01HTTP2Sequences(t *testing.T) {
 	p := vreport.Begin("C01", "http2-stream-sequences", time.Duration(vreport.Pick(3, 15))*time.Minute)
 	alpha := c01h2SeqAlphabet()
-	n := vreport.Pick(2, 3)
+	n := vreport.Pick(3, 4)
 	gen := func(yield func(c01hSeqCase) bool) {
 		idx := make([]int, n)
 		for {
